@@ -330,6 +330,9 @@ def stream_halton(ctx):
         if d > 40:
             n = min(n, 60)
         cases.append((gen_bounds(rng, d), n))
+    # indices at and around powers of the bases (a digit-count shortcut is wrong exactly there)
+    cases.append((gen_bounds(rng, 3), rng.randint(735, 760)))      # 2^9, 3^5, 3^6, 5^4
+    cases.append((gen_bounds(rng, 7), rng.randint(345, 360)))      # 7^3, 11^2, 13^2, 17^2
     cases.append((gen_bounds(rng, 169), 2))             # exactly the 169 primes below 1010 (end of the second sieve round)
     cases.append((gen_bounds(rng, 175), 2))             # 175 > 169 primes: third sieve round (primes below 2010)
     if not ctx.quick:
@@ -410,6 +413,43 @@ def report_halton(ctx, b, n, out, bad):
                  {"op": "halton", "N": n, "bounds": [list(x) for x in b]})
     else:
         raise InfraError("halton model raised on an input of the quantifier: N=%d bounds=%r" % (n, b))
+
+
+def stream_vdc(ctx):
+    """doe._van_der_corput directly, at and around large powers of the base (Halton designs that long would be
+    expensive): element i of the sequence must be the radical inverse of i (theorem vdc_eq_radicalInverse)."""
+    from artap import doe
+    from .common import unrat, close
+    reqs, got = [], []
+    for base in (2, 3, 5, 7, 11, 13, 17, 19, 23):
+        k = 1
+        while base ** (k + 1) <= (70000 if ctx.quick else 600000):
+            k += 1
+        top = base ** k + 2
+        try:
+            seq = doe._van_der_corput(top, base)
+        except Exception as e:   # noqa
+            ctx.fail("vdc-raises", "_van_der_corput(%d, %d) raised %s: %s" % (top, base, type(e).__name__, e),
+                     {"op": "vdc", "base": base, "n": top})
+            return False
+        if len(seq) != top:
+            ctx.fail("vdc-count", "_van_der_corput(%d, %d) returned %d elements" % (top, base, len(seq)), {"op": "vdc", "base": base, "n": top})
+            return False
+        idx = sorted({i for j in range(1, k + 1) for i in (base ** j - 1, base ** j, base ** j + 1) if 0 <= i < top} |
+                     {ctx.rng.randrange(top) for _ in range(6)})
+        for i in idx:
+            reqs.append((base, i))
+            got.append(float(seq[i]))
+    ans = ctx.lean(["c12.vdc %d|%d" % (b, i) for b, i in reqs])
+    for (b, i), a, m in zip(reqs, got, ans):
+        ctx.case(("vdc", b, i), nontrivial=(i >= b), sample={"op": "vdc", "base": b, "i": i, "value": a})
+        ctx.count("vdc_direct")
+        want = float(unrat(m)) if m != "raise" else None
+        if want is None or not close(a, want):
+            ctx.fail("halton-point", "_van_der_corput: element %d in base %d is %r, the radical inverse of %d (model, vdc_eq_radicalInverse) is %r" % (i, b, a, i, want),
+                     {"op": "vdc", "base": b, "i": i, "impl": a, "spec": want})
+            return False
+    return True
 
 
 def stream_grid(ctx):
@@ -721,7 +761,7 @@ def run(ctx):
         "_primes_from_2_to (numpy wheel sieve) is modelled by its contract 'primes below n, increasing'; agreement on the first 200 primes is tested through the Halton designs",
         "numpy RandomState.rand returns values in [0,1) and RandomState.permutation(range(N)) a permutation (inputs of lhs_latin)",
     ]
-    for name, f in (("halton", stream_halton), ("grid", stream_grid), ("lhs", stream_lhs), ("random", stream_random)):
+    for name, f in (("halton", stream_halton), ("vdc", stream_vdc), ("grid", stream_grid), ("lhs", stream_lhs), ("random", stream_random)):
         f(ctx)
 
 
